@@ -1343,6 +1343,11 @@ IntegralType.binary_operators.band = make_integral_binary_op(integral_bitwise_op
   return t:wrap_value(a & b)
 end)
 IntegralType.binary_operators.shl = make_integral_binary_op(integral_shift_op_type, function(a,b,t)
+  if b >= t.bitsize or b <= -t.bitsize then -- same as the run-time helper nelua_shl_
+    return bn.zero()
+  elseif bn.isneg(b) then -- logical shift right on the representation of the type
+    a = bn.bwrap(a, t.bitsize)
+  end
   return t:wrap_value(a << b)
 end)
 IntegralType.binary_operators.shr = make_integral_binary_op(integral_shift_op_type, function(a,b,t)
